@@ -245,8 +245,37 @@ func collectorRules(c *core.Ctx, s *Stage, col, w *Goroutine, vals, result *ir.T
 		}
 	}
 	why := ""
+	// the collector may count par receives, or close the partials channel after wg.Wait and drain it: every worker
+	// hands over exactly one partial before Done (checked below), so what the drain receives are exactly the par partials
+	drains := false
+	if loop == nil || !isPar(loop.Trip) {
+		nRecv, allClosed := 0, true
+		for _, p := range an.AllPaths() {
+			for i := range p.Steps {
+				st := &p.Steps[i]
+				if st.Kind == ir.KRecv && ir.Same(st.A[0], vals) {
+					nRecv++
+					if !closedBefore(an, st) {
+						allClosed = false
+					}
+				}
+			}
+		}
+		waitFirst := true
+		for _, p := range an.AllPaths() {
+			for i := range p.Steps {
+				st := &p.Steps[i]
+				if st.Kind == ir.KClose && ir.Same(st.A[0], vals) {
+					if !precededOnPaths(an, st.Instr, isWgWait) {
+						waitFirst = false
+					}
+				}
+			}
+		}
+		drains = nRecv > 0 && allClosed && waitFirst
+	}
 	switch {
-	case loop == nil || !isPar(loop.Trip):
+	case (loop == nil || !isPar(loop.Trip)) && !drains:
 		t := "unknown"
 		if loop != nil {
 			t = short(loop.Trip)
